@@ -139,14 +139,15 @@ Definition send_initially (m : msg) (s : st) : st * list output :=
   let s := if m_mtype m =? 0 then add_exchange m s else s in
   (s, [Tx m false]).
 
-(* messagemanager.py:287-308 _continue_backlog; the while loop runs on fuel = length of the queue + 1 *)
+(* messagemanager.py:287-313 _continue_backlog; the while loop (`while remote in self._backlogs and not any(...)`)
+   runs on fuel = length of the queue + 1 *)
 Fixpoint continue_backlog_loop (fuel : nat) (r : Z) (s : st) : st * list output :=
   match fuel with
   | O => (s, [])
   | S fuel =>
     if has_exchange r s then (s, []) else
     match aget r (backlogs s) with
-    | None => (s, [Crash KeyError])
+    | None => (s, [])                          (* `while remote in self._backlogs and ...` *)
     | Some [] => (upd_bl s (adel r (backlogs s)), [])
     | Some (m :: q) =>
         let '(s1, o1) := send_initially m (upd_bl s (aset r q (backlogs s))) in
